@@ -4,6 +4,7 @@ import (
 	"fmt"
 	"go/constant"
 	"go/types"
+	"golang.org/x/tools/go/ssa"
 	"strings"
 )
 
@@ -190,11 +191,18 @@ func (sc *SpecCtx) lookup(name string) Value {
 	}
 	// package-level variable
 	fn := sc.x.fx.fn
-	if fn != nil && fn.Pkg != nil {
-		if g, ok := fn.Pkg.Members[name]; ok {
+	var fpkg *ssa.Package
+	if fn != nil {
+		fpkg = fn.Pkg
+		if fpkg == nil {
+			fpkg = sc.x.eng.pkgs[sc.x.fx.pkgPath()] // instance of a generic function, closure inside one
+		}
+	}
+	if fpkg != nil {
+		if g, ok := fpkg.Members[name]; ok {
 			if gv, isG := g.(interface{ Type() types.Type }); isG {
 				if pt, isP := gv.Type().Underlying().(*types.Pointer); isP {
-					a := Addr{Root: "0", Key: "global:" + typeKeyPkg(fn.Pkg.Pkg) + "." + name, Ty: pt.Elem()}
+					a := Addr{Root: "0", Key: "global:" + typeKeyPkg(fpkg.Pkg) + "." + name, Ty: pt.Elem()}
 					return sc.st.loadAtIn(sc.cur, a)
 				}
 			}
@@ -553,6 +561,9 @@ func (sc *SpecCtx) call(e *Expr) Value {
 			sc.fail("off() of %s", v.K)
 		}
 		return intV(v.Off)
+	case "is_string": // dynamic type of an interface value is string
+		v := sc.eval(e.Args[0])
+		return boolV(fmt.Sprintf("(= (dyn_type %s) %s)", v.T, sc.x.typeTag(st, types.Typ[types.String])))
 	case "ref": // reference identity of a slice's backing array or pointer
 		v := sc.eval(e.Args[0])
 		if v.K == VSlice {
